@@ -23,7 +23,8 @@ type c13Round struct {
 }
 type c13In struct {
 	SM     bool       `json:"sm,omitempty"`
-	First  string     `json:"first,omitempty"` // "" ok; transient permanent refused: the very first connection fails
+	First  string     `json:"first,omitempty"`   // "" ok; transient permanent refused: the very first connection fails
+	StopIn int        `json:"stop_in,omitempty"` // k > 0: Stop is called from inside the k-th PostConnect callback (the one-shot connect / send / stop pattern)
 	Rounds []c13Round `json:"rounds"`
 }
 
@@ -34,6 +35,7 @@ func init() { register(c13{}) }
 func (c13) ID() string    { return "C13" }
 func (c13) RunFn() string { return "run_C13" }
 func (c13) Workers() int  { return 32 }
+func (c13) Journal() bool { return true }
 func (c13) Rule() string {
 	return "fault sequences of up to 4 rounds on successive connections of a real StreamManager+Client: abrupt drop or graceful </stream:stream> by the server, listener down for 0-120 ms (refused attempts), 0-2 negotiation failures (transient: unexpected reply to <auth/>, with a clean stream close or with the connection cut; permanent: SASL <failure/>), then a successful attempt that resumes (stream management) or binds afresh; a probe stanza is sent on every established session; finally Stop; also first-connection failures; distinct = fault sequence; non-trivial = at least one loss followed by a new session"
 }
@@ -59,6 +61,8 @@ func (c13) Gen(r *rand.Rand, tier string) []interface{} {
 		c13In{Rounds: []c13Round{{Term: "drop", Fails: []string{"transientdrop"}}}},
 		c13In{SM: true, Rounds: []c13Round{{Term: "close", Fails: []string{"transientdrop", "transient"}, Resume: true}}},
 		c13In{First: "transient"}, c13In{First: "permanent"}, c13In{First: "refused"},
+		c13In{StopIn: 1}, c13In{SM: true, StopIn: 1},
+		c13In{StopIn: 2, Rounds: []c13Round{{Term: "drop"}}},
 	)
 	for i := 0; i < n; i++ {
 		in := c13In{SM: r.Intn(2) == 0}
@@ -106,8 +110,13 @@ func (c13) Input(inp interface{}) Sx {
 		att(2)
 	}
 	if in.First == "" {
+		sessions := 1
 	rounds:
 		for _, rd := range in.Rounds {
+			if in.StopIn > 0 && sessions >= in.StopIn {
+				break
+			}
+			sessions++
 			if rd.Term == "drop" {
 				term(0)
 			} else {
@@ -231,10 +240,15 @@ func (c13) Run(inp interface{}) Sx {
 	if err != nil {
 		return L(SBytes("newclient-failed"))
 	}
-	sm := xmpp.NewStreamManager(client, func(s xmpp.Sender) {
+	var sm *xmpp.StreamManager
+	sm = xmpp.NewStreamManager(client, func(s xmpp.Sender) {
 		mu.Lock()
 		post++
+		p := post
 		mu.Unlock()
+		if in.StopIn > 0 && p == in.StopIn {
+			sm.Stop()
+		}
 	})
 	runDone := make(chan error, 1)
 	go func() { runDone <- sm.Run() }()
@@ -274,17 +288,23 @@ func (c13) Run(inp interface{}) Sx {
 			time.Sleep(300 * time.Microsecond)
 		}
 	}
+	stoppedIn := false
 	connIdx := 0 // index of the server connection carrying the current session
 	sessions := 0
 	dead := false
 	if in.First == "" {
 		if waitPost(1, 5*time.Second) {
 			sessions = 1
-			probe(connIdx, sessions)
+			if in.StopIn == 1 {
+				stoppedIn = true
+				probeOK++ // Stop runs inside this session's PostConnect: the session is not probed
+			} else {
+				probe(connIdx, sessions)
+			}
 		}
 	rounds:
 		for _, rd := range in.Rounds {
-			if sessions == 0 {
+			if sessions == 0 || stoppedIn {
 				break
 			}
 			if rd.RefuseMs > 0 {
@@ -313,6 +333,11 @@ func (c13) Run(inp interface{}) Sx {
 				break
 			}
 			sessions++
+			if in.StopIn == sessions {
+				stoppedIn = true
+				probeOK++
+				break
+			}
 			probe(connIdx, sessions)
 		}
 	} else {
@@ -337,7 +362,14 @@ func (c13) Run(inp interface{}) Sx {
 		}
 	}
 	extra := 0
-	if !returned {
+	if stoppedIn && !returned {
+		// Stop has been called from a PostConnect callback: Run must return on its own
+		select {
+		case <-runDone:
+			returned = true
+		case <-time.After(5 * time.Second):
+		}
+	} else if !returned {
 		stopped := make(chan struct{})
 		go func() { sm.Stop(); close(stopped) }()
 		select {
@@ -412,6 +444,9 @@ func (c13) Oracle(inp interface{}, obs Sx) (string, string) {
 	if in.First == "" {
 		want = 1
 		for _, rd := range in.Rounds {
+			if in.StopIn > 0 && want >= int64(in.StopIn) {
+				break
+			}
 			perm := false
 			for _, f := range rd.Fails {
 				if f == "permanent" {
